@@ -217,7 +217,11 @@ def model_header(info):
         for evt in dcl['events']:
             lines.append(f'    if (!{evt["dir"]}.{evt["name"]}) throw dzn::binding_error(meta, "{evt["dir"]}.{evt["name"]}");')
         lines.append('  }')
-        lines.append(f'}}; {ns_close(dcl["fqn"][:-1])}')
+        lines.append('};')
+        # what `dzn code` emits next to every interface: tie a provided to a required port
+        lines.append(f'inline void connect({name}& provided, {name}& required) {{ provided.out = required.out; required.in = provided.in; '
+                     'provided.meta.require = required.meta.require; required.meta.provide = provided.meta.provide; }')
+        lines.append(ns_close(dcl["fqn"][:-1]))
         out.append('\n'.join(lines))
     enc = info.enc
     name = enc['fqn'][-1]
@@ -439,6 +443,7 @@ int main(int argc, char** argv)
       if (bits[2] == '1') user_loc.set(other_service);
       auto before = user_loc.verif_contents();
       COMP::last() = nullptr;
+      reset_peers();
       { verif::state& s = verif::S(); std::unique_lock<std::mutex> lock(s.m); s.out_counter = 0; s.script.clear(); s.arbiter.clear(); s.react.clear(); }
       try {
         sh.reset(new SHELL(CTORARGS));
@@ -563,6 +568,33 @@ def driver_source(info, shell_hh):
                 bind_lines.append(f'      if ({cond} && client.empty()) {{ auto& p = sh->{info.accessor(prt)}().port; '
                                   f'if (on) p.{evt["dir"]}.{evt["name"]} = {handler(info, prt["itf"], evt, "user", prt["name"])}; '
                                   f'else p.{evt["dir"]}.{evt["name"]} = nullptr; n++; }}')
+    # connect: the user ties a port object of his own to the boundary port with <prefix>::ConnectPorts (StrictPort.hh);
+    # afterwards his calls go through his own port object
+    peers, conn = [], []
+    for prt in info.ports:
+        if not prt['exposed']:
+            continue
+        ityp = cpp_fqn(prt['itf']['fqn'])
+        strict = 'Sts' if prt['sem'] == 'STS' else 'Mts'
+        peers.append(f'static std::map<std::string, std::unique_ptr<{ityp}>> peers_{prt["name"]};')
+        acc = f'sh->{info.accessor(prt)}(client)' if prt['mc'] else f'sh->{info.accessor(prt)}()'
+        cond = f'port == "{prt["name"]}" && ' + ('!client.empty()' if prt['mc'] else 'client.empty()')
+        if prt['dir'] == 'provides':
+            meta = '{{"", nullptr, nullptr, nullptr}, {"peer", nullptr, nullptr, nullptr}}'
+            sets = ' '.join(f'pr->out.{e["name"]} = {handler(info, prt["itf"], e, "user", prt["name"], "client" if prt["mc"] else chr(34) * 2)}; n++;'
+                            for e in prt['itf']['events'] if e['dir'] == 'out')
+            tie = f'{info.prefix_ns}::ConnectPorts({acc}, {info.prefix_ns}::{strict}<{ityp}>{{*pr}});'
+        else:
+            meta = '{{"peer", nullptr, nullptr, nullptr}, {"", nullptr, nullptr, nullptr}}'
+            sets = ' '.join(f'pr->in.{e["name"]} = {handler(info, prt["itf"], e, "user", prt["name"])}; n++;'
+                            for e in prt['itf']['events'] if e['dir'] == 'in')
+            tie = f'{info.prefix_ns}::ConnectPorts({info.prefix_ns}::{strict}<{ityp}>{{*pr}}, {acc});'
+        conn.append(f'      if ({cond}) {{ auto pr = std::make_unique<{ityp}>(dzn::port::meta{meta}); {sets} {tie} '
+                    f'peers_{prt["name"]}[client] = std::move(pr); }}')
+    out.append('\n'.join(peers))
+    out.append('static void reset_peers() { ' + ' '.join(f'peers_{p["name"]}.clear();' for p in info.ports if p['exposed']) + ' }')
+    disp.append('    else if (cmd == "connect") { std::string port, client; in >> port >> client; if (client == "-") client = ""; int n = 0; try {\n' +
+                '\n'.join(conn) + '\n      res = std::string("{\\"ok\\":true,\\"n\\":") + std::to_string(n) + "}"; } CATCH_ALL(res) }')
     disp.append('    else if (cmd == "bind" || cmd == "unbind") { bool on = cmd == "bind"; std::string port, event, client; in >> port >> event >> client; '
                 'if (client == "-") client = ""; int n = 0; try {\n' + '\n'.join(bind_lines) +
                 '\n      res = std::string("{\\"ok\\":true,\\"n\\":") + std::to_string(n) + "}"; } CATCH_ALL(res) }')
@@ -596,8 +628,10 @@ def driver_source(info, shell_hh):
             if not outside:
                 continue
             acc = f'sh->{info.accessor(prt)}(client).port' if prt['mc'] else f'sh->{info.accessor(prt)}().port'
+            peer = f'peers_{prt["name"]}'
             calls.append(f'      if (port == "{prt["name"]}" && event == "{evt["name"]}") {{ found = true; '
-                         f'spawn(who, [=]() -> std::string {{ auto& p = {acc}; {call_code(info, prt, evt, "p")} }}); }}')
+                         f'spawn(who, [=]() -> std::string {{ auto pit = {peer}.find(client); '
+                         f'auto& p = pit != {peer}.end() ? *pit->second : {acc}; {call_code(info, prt, evt, "p")} }}); }}')
     disp.append('    else if (cmd == "call" || cmd == "raise") { std::string who, port, client, event; in >> who >> port >> client >> event; '
                 'if (client == "-") client = ""; std::vector<int> a; int v; while (in >> v) a.push_back(v); bool found = false;\n' +
                 '\n'.join(calls) + '\n      res = found ? "{\\"ok\\":true}" : "{\\"ok\\":false,\\"what\\":\\"no such event\\"}"; }')
